@@ -1327,7 +1327,9 @@ func columnar(ncols int, cols func(w *W), nextra int, extra func(w *W)) []byte {
 }
 
 func (r *runner) edgeGrid() {
-	// minimal witnesses of the known divergence classes FIRST (c.Fail keeps the first replay per key)
+	// minimal witnesses of the known divergence class FIRST (c.Fail keeps the first replay per key);
+	// the duplicate-column bodies are the regression inputs of the fixed finding (d7052e6): the
+	// columns-differ monitor stays live and must never fire
 	r.run(H("83 a16d a178 a7636f6c756d6e73 81 a161 9101 a17a d40500"), "edge")        // skipped ext (unknown id)
 	r.run(H("83 a16d a178 a7636f6c756d6e73 81 a161 9101 a17a 81c001"), "edge")        // skipped map with nil key (Unmarshal panics)
 	r.run(H("82 a16d a178 a7636f6c756d6e73 83 a161 9101 a162 9102 a161 05"), "edge")  // a:[1], b:[2], a:5
@@ -1525,7 +1527,7 @@ func main() {
 	if n == 0 {
 		n = 50_000
 		if c.Thorough() {
-			n = 2_000_000
+			n = 1_400_000
 		}
 	}
 	g := &G{r: vh.NewRand(c.Seed), c: c}
